@@ -5,6 +5,7 @@ SPEC = {
     'claimed': False,
     'theorems': ['C33_recovered_paths_total_refuted', 'C33_recovered_paths_total', 'C33_recovered_guard_example',
                  'C33_no_panic_outside_recover_refuted', 'C33_no_panic_outside_recover_partial',
+                 'C33_partial_needs_validation',
                  'C33_partial_guard_example', 'C33_crash_characterisation',
                  'C33_loop_panics_only_at_group_expansion', 'C33_wellformed_never_panics',
                  'C33_wellformed_example'],
@@ -21,13 +22,13 @@ SPEC = {
             'timeouts 1-5 s; the clock also steps back), node height changes, block request / response / unknown peer '
             'messages (decodable or not, nil ProtoMsg, heights -1..6, locally unavailable heights), iterations of '
             'the block-request loop. Streams: "guarded" (pools stripped of expanding entries whenever the guard '
-            'fits_hist of the partial theorem fails: every spec failure is a violation), "unrestricted" and '
-            '"malformed" (every light block malformed) may hit finding 1; there the loops are driven one iteration '
-            'at a time through the hook and a panic of the loop body is caught by the harness. "live": 16 hand-written '
+            'fits_hist of the partial theorem fails, validation enabled: every spec failure is a violation), "unrestricted" and '
+            '"malformed" (every light block malformed; validation disabled in 1 of 8 cases) may hit findings 1 and 3; there the loops are driven one iteration '
+            'at a time through the hook and a panic of the loop body is caught by the harness. "live": 21 hand-written '
             '+ 6 (40 thorough) generated histories, each in a CHILD process (RLIMIT_AS 16 GiB) with the real '
             'pendBlockLoop/blockRequestLoop goroutines and real time; the observable is the exit status and what was '
-            'posted/published before; includes the witnesses of both findings (group overrun in the loop; TxCount 2^40 and '
-            '2^45). After every event: survived?, blocks handed to the blockchain module (publisher, height, header '
+            'posted/published before; includes the witnesses of the three findings (group overrun in the loop; TxCount 2^40 '
+            'and 2^45; nil validator) and the three height comparisons of the loop body. After every event: survived?, blocks handed to the blockchain module (publisher, height, header '
             'fields, MainHash/MainHeight, transaction ids per slot), peer messages published (kind, peer, height), '
             'lengths of the pending and block-request lists. non-trivial = something was posted, published, pending '
             'or crashed; distinct = distinct Gallina case terms',
@@ -52,8 +53,8 @@ SPEC = {
         'C33_recovered_paths_total: guard mem_ok (TxCount not in (c_cap, 2^45]) - without it refuted (finding 2)',
         'C33_no_panic_outside_recover_partial: guard fits_hist (every group a pool of the history returns for a short hash '
         'of a light block of the history fits into TxCount at that position) - without it refuted (finding 1)',
-        'broadcast validation enabled (default): with disableValidation=true p.val is nil and postBlockChain '
-        'dereferences it (read from the code, not exercised)',
+        'C33_no_panic_outside_recover_partial: guard c_noval = false (broadcast validation enabled, the default) - without it '
+        'C33_partial_needs_validation (finding 3)',
         'the block filter (LRU of 1024 hashes) never evicts within a history',
     ],
     'manifest': {
